@@ -534,7 +534,13 @@ func Judge(sc *Scenario, tr *Trace) ([]pbt.Violation, Stats) {
 				continue
 			}
 			fp, rp := split(prev)
-			justified := !subset(fq, fp) || (sr && !subset(rq, rp)) || a.Flush.Sub(prev.Done) > a.Repeat
+			// the entry of the previous delivery lives min(retention, 2 x the repeat_interval in force then): after a
+			// reload that raised repeat_interval it can be gone although the new repeat_interval has not passed
+			expiry := 2 * prev.Repeat
+			if ret := time.Duration(sc.Opts.Retention) * time.Second; ret < expiry {
+				expiry = ret
+			}
+			justified := !subset(fq, fp) || (sr && !subset(rq, rp)) || a.Flush.Sub(prev.Done) > a.Repeat || a.Flush.Sub(prev.Done) > expiry
 			if !justified {
 				rt, members := m.GroupMembers(cfg, a.RouteID, a.GroupKey)
 				empty := m.Sometime(prev.Done, a.Flush, func(t time.Time) bool {
